@@ -3,7 +3,7 @@ C20 — Interventions reach only eligible agents, on schedule, within capacity.
 
 Property theorems only (helper lemmas: Lemmas/Intervention.lean; model: Model/Intervention.lean).
 The constants of the source (`adj_factor` branches, the annual→step conversion expression, the step gates, the
-capacity slice) come from Generated/DeliveryConsts.lean, regenerated from /repo/starsim/interventions.py on every run.
+capacity slice, the source of the eligibility each delivering function works with) come from Generated/DeliveryConsts.lean, regenerated from /repo/starsim/interventions.py on every run.
 Random streams (`draw`, `effDraw`, `pick`, `fails`) and eligibility rules are arbitrary: every theorem holds for all of them,
 for all prior records (= all histories) and, where stated for runs, for all run lengths.
 -/
@@ -840,6 +840,88 @@ theorem C20_coverage_own_dt_counterexample : stepProbR (1/2) 1 = 1/2 ∧ stepPro
     rw [show (2 : ℝ) = ((2 : ℕ) : ℝ) by norm_num, Real.rpow_natCast]
     norm_num
 
+/-! ### Round 3: the rule's answer on the step of delivery, over rule-driven histories -/
+
+def srcOf : Gen.EligSrcKind → EligSrc
+  | .fresh => .fresh
+  | .stored => .stored
+
+/-- Every delivering function of the checked-out source (`BaseVaccination.step`, `BaseTest.deliver`,
+    `BaseTreatment.get_accept_inds`, the re-check of `BaseTreatment.step`) works with the result of
+    `self.check_eligibility()` called in that function, i.e. with the rule as evaluated on the step of delivery —
+    not with a value kept on the object by an earlier evaluation. -/
+theorem C20_eligibility_evaluated_on_delivery_step :
+    Gen.eligSrcVaccination = .fresh ∧ Gen.eligSrcTest = .fresh ∧ Gen.eligSrcTreatAccept = .fresh ∧
+      Gen.eligSrcTreatRecheck = .fresh := by decide
+
+/-- **Treatment, every step of every run.** Drive `treat_num` (sources of the two eligibility lists and the capacity
+    slice as regenerated from the source) with ANY sequence of rule answers, active sets and random streams, from any
+    state (queue, memory).  At every step the treated are within the rule's answer ON THAT STEP — whatever the rule
+    answered earlier and whoever is waiting in the queue —, are active when the rule is absent or a Boolean array, and
+    number at most `max_capacity`. -/
+theorem C20_treat_history_eligible (cap : Option Nat) (p : Rat) (rows : List TxRow) (hist : List TreatRuleIn) :
+    ∀ (s s' : TreatRunState) (outs : List (List Nat)),
+      treatRuleRun (srcOf Gen.eligSrcTreatAccept) (srcOf Gen.eligSrcTreatRecheck) Gen.capSliceOffset cap p rows hist s
+        = .ok (outs, s') →
+      List.Forall₂ (fun (x : TreatRuleIn) (t : List Nat) =>
+        ∃ el, checkEligibility x.active x.elig = .ok el ∧ (∀ u ∈ t, u ∈ el) ∧
+          ((∀ l, x.elig ≠ .uids l) → ∀ u ∈ t, u ∈ x.active) ∧ (∀ c, cap = some c → t.length ≤ c)) hist outs := by
+  have hsrc := C20_eligibility_evaluated_on_delivery_step
+  induction hist with
+  | nil =>
+    intro s s' outs h
+    simp only [treatRuleRun, Except.ok.injEq, Prod.mk.injEq] at h
+    rw [← h.1]; exact List.Forall₂.nil
+  | cons x xs ih =>
+    intro s s' outs h
+    simp only [treatRuleRun] at h
+    cases h1 : treatRuleStep (srcOf Gen.eligSrcTreatAccept) (srcOf Gen.eligSrcTreatRecheck) Gen.capSliceOffset cap p rows x s with
+    | error e => simp [h1] at h
+    | ok q =>
+      obtain ⟨t, s1⟩ := q
+      simp only [h1] at h
+      cases h2 : treatRuleRun (srcOf Gen.eligSrcTreatAccept) (srcOf Gen.eligSrcTreatRecheck) Gen.capSliceOffset cap p rows xs s1 with
+      | error e => simp [h2] at h
+      | ok q2 =>
+        obtain ⟨ts, s2⟩ := q2
+        simp only [h2, Except.ok.injEq, Prod.mk.injEq] at h
+        rw [← h.1]
+        refine List.Forall₂.cons ?_ (ih s1 s2 ts h2)
+        unfold treatRuleStep at h1
+        cases he : checkEligibility x.active x.elig with
+        | error e => simp [he] at h1
+        | ok el =>
+          simp only [he, hsrc.2.2.1, hsrc.2.2.2, srcOf, eligUsed, Except.ok.injEq, Prod.mk.injEq] at h1
+          have ht := h1.1
+          have hel := (C20_treated_eligible Gen.capSliceOffset cap p rows x.active el el x.draw x.effDraw s.st).1
+          simp only [ht] at hel
+          refine ⟨el, rfl, fun u hu => (hel u hu).1, ?_, ?_⟩
+          · intro hk u hu
+            exact checkEligibility_active x.active x.elig el he hk u (hel u hu).1
+          · intro c hc
+            subst hc
+            have := (C20_capacity c p rows x.active el el x.draw x.effDraw s.st).1
+            simp only [ht] at this
+            exact this
+
+/-- **Boundary: a re-check against a kept eligibility list.** If `BaseTreatment.step` intersected the candidates with the
+    list kept from the previous evaluation instead of this step's (`stored`), a queued agent is treated on a step on
+    which the rule returns nobody: queue [4,5,6], capacity 1; the rule answers "everybody", then "nobody"; agent 4 is
+    treated on the second step (kernel-checked).  With the source's `fresh` re-check nobody is. -/
+theorem C20_stored_eligibility_counterexample :
+    (match treatRuleRun .fresh .stored 0 (some 1) 1 [⟨1, 1, 0⟩]
+        [⟨[4, 5, 6], .everyone, fun _ => 0, fun _ _ => 0⟩, ⟨[4, 5, 6], .mask (fun _ => false), fun _ => 0, fun _ _ => 0⟩]
+        ⟨⟨[4, 5, 6], fun s _ => s == 1, [], []⟩, []⟩ with
+      | .ok (outs, _) => decide (outs = [[], [4]])
+      | .error _ => false) = true ∧
+    checkEligibility [4, 5, 6] (.mask (fun _ => false)) = .ok [] ∧
+    (match treatRuleRun .fresh .fresh 0 (some 1) 1 [⟨1, 1, 0⟩]
+        [⟨[4, 5, 6], .everyone, fun _ => 0, fun _ _ => 0⟩, ⟨[4, 5, 6], .mask (fun _ => false), fun _ => 0, fun _ _ => 0⟩]
+        ⟨⟨[4, 5, 6], fun s _ => s == 1, [], []⟩, []⟩ with
+      | .ok (outs, _) => decide (outs = [[4], []])
+      | .error _ => false) = true := by
+  refine ⟨by decide +kernel, by decide +kernel, by decide +kernel⟩
+
 /-! ### Non-vacuity: concrete states meeting the hypotheses -/
 
 /-- a delivering vaccination step (time point 3 of the schedule; of the active agents 1, 2, 5 the rule excludes 2,
@@ -859,6 +941,15 @@ example : (treatNumStep 0 (some 2) 1 [⟨1, 1, 0⟩] [4, 5, 6] [] [4, 5, 6] (fun
 
 example : (treatNumStep 0 (some 2) 1 [⟨1, 1, 0⟩] [4, 5, 6] [] [4, 5, 6] (fun _ => 0) (fun _ _ => 0)
     ⟨[4, 5, 6], fun s _ => s == 1, [], []⟩).2.queue = [6] := by decide +kernel
+
+/-- `C20_treat_history_eligible`: a three-step rule-driven run with a backlog (capacity 1) whose rule closes on the second
+    step and reopens on the third: 4 is treated, nobody, then 5 -/
+example : (match treatRuleRun (srcOf Gen.eligSrcTreatAccept) (srcOf Gen.eligSrcTreatRecheck) Gen.capSliceOffset (some 1) 1 [⟨1, 1, 0⟩]
+      [⟨[4, 5, 6], .everyone, fun _ => 0, fun _ _ => 0⟩, ⟨[4, 5, 6], .uids [], fun _ => 0, fun _ _ => 0⟩,
+       ⟨[4, 5, 6], .mask (fun u => u != 4), fun _ => 1, fun _ _ => 0⟩]
+      ⟨⟨[], fun s _ => s == 1, [], []⟩, [9]⟩ with
+    | .ok (outs, s) => decide (outs = [[4], [], [5]]) && decide (s.st.queue = [6])
+    | .error _ => false) = true := by decide +kernel
 
 /-- `C20_coverage_annual`: four quarterly steps -/
 example : ((4 : ℕ) : ℝ) * (1 / 4 : ℝ) = 1 := by norm_num
